@@ -10,7 +10,7 @@
    of the token list they start on; running out of either is the explicit
    result OutOfFuel. *)
 From Coq Require Import List NArith ZArith Bool.
-From NV Require Import Syntax.Token Syntax.Ast Syntax.StrEsc.
+From NV Require Import Syntax.Token Syntax.Ast Syntax.StmtAst Syntax.StrEsc.
 Import ListNotations.
 Local Open Scope N_scope.
 
@@ -21,7 +21,18 @@ Inductive perr :=
 | ExpectedFieldNameInStruct | ExpectedColonAfterFieldName
 | ExpectedCommaOrRightCurlyInStructFieldList | OverflowInNumberLiteral
 | TrailingCharacters | TrailingEqualSign | TrailingEqualSignFunction
-| ExpectedIdentifierAfterLet | ExpectedEqualOrColonAfterLetIdentifier | ExpectedLeftParenAfterProcedureName.
+| ExpectedIdentifierAfterLet | ExpectedEqualOrColonAfterLetIdentifier | ExpectedLeftParenAfterProcedureName
+| ExpectedIdentifierAfterFn | ExpectedLeftParenInFunctionDefinition
+| ExpectedCommaEllipsisOrRightParenInFunctionDefinition | ExpectedParameterNameInFunctionDefinition
+| ExpectedLocalVariableDefinition | AliasUsedOnFunction | ExpectedIdentifierAfterDimension
+| DoubleUnderscoreTypeNamesReserved | ExpectedDecoratorName | UnknownDecorator | ExpectedLeftParenAfterDecorator
+| ExpectedString | ExpectedIdentifierAfterUnit | ExpectedColonOrEqualAfterUnitIdentifier
+| ExampleUsedOnUnsuitableKind | DecoratorsWithPrefixOnLetDefinition | DecoratorUsedOnUnsuitableKind
+| ExpectedModulePathAfterUse | ExpectedModuleNameAfterDoubleColon | ExpectedLeftCurlyAfterStructName
+| UnknownBound | ExpectedBoundInTypeParameterDefinition | ExpectedCommaOrRightAngleBracket
+| ExpectedTypeParameterName | ExpectedTokenInFunctionType | ExpectedTokenInListType
+| ExpectedDimensionPrimary | ExpectedDimensionExponent | NumberInDimensionExponentOutOfRange
+| DivisionByZeroInDimensionExponent | OverflowInDimensionExponent | UnknownAliasAnnotation.
 
 Inductive res (A : Type) :=
 | Ok (a : A) (rest : list token)
@@ -355,33 +366,234 @@ Fixpoint expression_d (d : nat) : parser :=
 
 Definition expression : parser := fun ts => expression_d (S (length ts)) ts.
 
-(* Statements of the model: expressions, `let name = e` without type annotation and decorators,
-   and the procedure calls print / assert / assert_eq / type. *)
-Inductive stmt :=
-| StExpr (e : expr)
-| StLet (name : str) (e : expr)
-| StProc (k : kw) (args : list expr).
+(* ------------------------------------------------------------------------
+   Type annotations and dimension expressions (Parser::type_annotation,
+   dimension_expression, dimension_factor, dimension_power, dimension_exponent,
+   dimension_primary).  A `>=` token in the position of a closing `>` (the
+   `pending_equals` device of the Rust parser) is outside the model: Unsupported. *)
 
-(* Parser::statement / Parser::parse: the statements, or the kind of the first error.
-   fn / dimension / unit / use / struct definitions, decorators and type annotations are
-   outside the model (explicit Unsupported). *)
-Definition starts_other_statement (ts : list token) : bool :=
-  match ts with
-  | TKw KFn :: _ | TKw KDimension :: _ | TAt :: _ | TKw KUnit :: _
-  | TKw KUse :: _ | TKw KStruct :: _ => true
-  | _ => false
+Definition i128_max : Z := (2 ^ 127 - 1)%Z.
+
+(* Ratio::new: lowest terms, positive denominator *)
+Definition mk_exponent (n : Z) (d : Z) : exponent :=
+  let g := Z.gcd n d in
+  let n' := (n / g)%Z in let d' := (d / g)%Z in
+  match d' with
+  | Zpos p => (n', p)
+  | Zneg p => ((- n')%Z, p)
+  | Z0 => (n', 1%positive)
   end.
+Definition exp_neg (e : exponent) : exponent := ((- fst e)%Z, snd e).
+Definition exp_is_zero (e : exponent) : bool := Z.eqb (fst e) 0.
+Definition exp_fits (e : exponent) : bool :=
+  (Z.leb (Z.abs (fst e)) i128_max) && (Z.leb (Zpos (snd e)) i128_max).
+Definition exp_div (a b : exponent) : exponent :=
+  mk_exponent (fst a * Zpos (snd b))%Z (Zpos (snd a) * fst b)%Z.
+
+Definition all_digits (s : str) : bool := forallb (fun c => (48 <=? c) && (c <=? 57)) s.
+Definition decimal_value (s : str) : Z :=
+  fold_left (fun acc c => (acc * 10 + Z.of_N (c - 48))%Z) s 0%Z.
+
+Definition starts_double_underscore (s : str) : bool :=
+  match s with 95 :: 95 :: _ => true | _ => false end.
+
+(* Parser::dimension_exponent *)
+Fixpoint dimension_exponent_n (n : nat) (ts : list token) : res exponent :=
+  match n with
+  | O => OutOfFuel
+  | S n =>
+      match ts with
+      | TNumber lex :: r =>
+          let d := remove_underscores lex in
+          if negb (match d with [] => false | _ => all_digits d end) then Err NumberInDimensionExponentOutOfRange
+          else if Z.leb (decimal_value d) i128_max then Ok (decimal_value d, 1%positive) r
+          else Err NumberInDimensionExponentOutOfRange
+      | TMinus :: r => bind (dimension_exponent_n n r) (fun e rest => Ok (exp_neg e) rest)
+      | TLParen :: r =>
+          bind (dimension_exponent_n n r) (fun e rest =>
+            match rest with
+            | TRParen :: rest1 => Ok e rest1
+            | TDivide :: rest1 =>
+                bind (dimension_exponent_n n rest1) (fun rhs rest2 =>
+                  if exp_is_zero rhs then Err DivisionByZeroInDimensionExponent
+                  else match rest2 with
+                       | TRParen :: rest3 =>
+                           if exp_fits (exp_div e rhs) then Ok (exp_div e rhs) rest3
+                           else Err OverflowInDimensionExponent
+                       | _ => Err MissingClosingParen
+                       end)
+            | _ => Err MissingClosingParen
+            end)
+      | _ => Err ExpectedDimensionExponent
+      end
+  end.
+Definition dimension_exponent (ts : list token) : res exponent := dimension_exponent_n (S (length ts)) ts.
+
+Section TypeLevels.
+  Variable type_annotation_k : list token -> res tann.     (* nested type annotations *)
+  Variable dimension_expression_k : list token -> res texp. (* parenthesised dimension expressions *)
+
+  (* the generic arguments `<A, B>` of a type identifier, after the first one *)
+  Fixpoint type_args_loop (n : nat) (args : list tann) (ts : list token) : res (list tann) :=
+    match n with
+    | O => OutOfFuel
+    | S n =>
+        match ts with
+        | TComma :: r => bind (type_annotation_k r) (fun a rest => type_args_loop n (args ++ [a]) rest)
+        | TGreaterThan :: r => Ok args r
+        | TGreaterOrEqual :: _ => Unsupported
+        | _ => Err ExpectedCommaOrRightAngleBracket
+        end
+    end.
+
+  (* Parser::dimension_primary *)
+  Definition dimension_primary (ts : list token) : res texp :=
+    match ts with
+    | TIdent name :: r =>
+        if starts_double_underscore name then Err DoubleUnderscoreTypeNamesReserved
+        else
+          match r with
+          | TLessThan :: TGreaterThan :: r1 => Ok (TEIdent name []) r1
+          | TLessThan :: TGreaterOrEqual :: _ => Unsupported
+          | TLessThan :: r1 =>
+              bind (type_annotation_k r1) (fun a rest =>
+                bind (type_args_loop (S (length rest)) [a] rest) (fun args rest1 => Ok (TEIdent name args) rest1))
+          | _ => Ok (TEIdent name []) r
+          end
+    | TNumber lex :: r => if list_eq_dec N.eq_dec lex [49] then Ok TEUnity r else Err ExpectedDimensionPrimary
+    | TLParen :: r =>
+        bind (dimension_expression_k r) (fun d rest =>
+          match rest with
+          | TRParen :: rest1 => Ok d rest1
+          | _ => Err MissingClosingParen
+          end)
+    | _ => Err ExpectedDimensionPrimary
+    end.
+
+  (* Parser::dimension_power *)
+  Definition dimension_power (ts : list token) : res texp :=
+    bind (dimension_primary ts) (fun e rest =>
+      match rest with
+      | TPower :: r => bind (dimension_exponent r) (fun x rest1 => Ok (TEPow e x) rest1)
+      | TUnicodeExponent lex :: r => Ok (TEPow e (unicode_exponent_to_int lex, 1%positive)) r
+      | _ => Ok e rest
+      end).
+
+  (* Parser::dimension_factor (= dimension_expression) *)
+  Fixpoint dimension_factor_loop (n : nat) (acc : texp) (ts : list token) : res texp :=
+    match n with
+    | O => OutOfFuel
+    | S n =>
+        match ts with
+        | TMultiply :: r => bind (dimension_power r) (fun rhs rest => dimension_factor_loop n (TEMul acc rhs) rest)
+        | TDivide :: r => bind (dimension_power r) (fun rhs rest => dimension_factor_loop n (TEDiv acc rhs) rest)
+        | _ => Ok acc ts
+        end
+    end.
+  Definition dimension_factor (ts : list token) : res texp :=
+    bind (dimension_power ts) (fun e rest => dimension_factor_loop (S (length rest)) e rest).
+
+  (* the parameter types of `Fn[(A, B) -> C]`, after the first one *)
+  Fixpoint fn_type_params_loop (n : nat) (ps : list tann) (ts : list token) : res (list tann) :=
+    match n with
+    | O => OutOfFuel
+    | S n =>
+        match ts with
+        | TComma :: r => bind (type_annotation_k r) (fun a rest => fn_type_params_loop n (ps ++ [a]) rest)
+        | _ => Ok ps ts
+        end
+    end.
+
+  (* Parser::type_annotation *)
+  Definition type_annotation_body (ts : list token) : res tann :=
+    match ts with
+    | TKw KBool :: r => Ok TABool r
+    | TKw KString :: r => Ok TAString r
+    | TKw KDateTime :: r => Ok TADateTime r
+    | TKw KCapitalFn :: r =>
+        match r with
+        | TLBracket :: TLParen :: r1 =>
+            let params :=
+              match r1 with
+              | TRParen :: _ => Ok [] r1
+              | _ => bind (type_annotation_k r1) (fun a rest => fn_type_params_loop (S (length rest)) [a] rest)
+              end in
+            bind params (fun ps rest =>
+              match rest with
+              | TRParen :: TArrow :: rest1 =>
+                  bind (type_annotation_k rest1) (fun ret rest2 =>
+                    match rest2 with
+                    | TRBracket :: rest3 => Ok (TAFn ps ret) rest3
+                    | _ => Err ExpectedTokenInFunctionType
+                    end)
+              | TRParen :: _ => Err ExpectedTokenInFunctionType
+              | _ => Err MissingClosingParen
+              end)
+        | _ => Err ExpectedTokenInFunctionType
+        end
+    | TKw KList :: r =>
+        match r with
+        | TLessThan :: r1 =>
+            bind (type_annotation_k r1) (fun a rest =>
+              match rest with
+              | TGreaterThan :: rest1 => Ok (TAList a) rest1
+              | TGreaterOrEqual :: _ => Unsupported
+              | _ => Err ExpectedTokenInListType
+              end)
+        | _ => Err ExpectedTokenInListType
+        end
+    | _ => bind (dimension_factor ts) (fun d rest => Ok (TAExp d) rest)
+    end.
+End TypeLevels.
+
+(* nesting depth d: nested annotations / parenthesised dimension expressions *)
+Fixpoint type_annotation_d (d : nat) : list token -> res tann :=
+  match d with
+  | O => fun _ => OutOfFuel
+  | S d => type_annotation_body (fun ts => type_annotation_d d ts) (fun ts => dimension_expression_d d ts)
+  end
+with dimension_expression_d (d : nat) : list token -> res texp :=
+  match d with
+  | O => fun _ => OutOfFuel
+  | S d => dimension_factor (fun ts => type_annotation_d d ts) (fun ts => dimension_expression_d d ts)
+  end.
+
+Definition type_annotation (ts : list token) : res tann := type_annotation_d (S (length ts)) ts.
+Definition dimension_expression (ts : list token) : res texp := dimension_expression_d (S (length ts)) ts.
+
+(* ------------------------------------------------------------------------
+   Statements (Parser::statement and the parse_* functions). *)
 
 Definition is_procedure (k : kw) : bool :=
   match k with KPrint | KAssert | KAssertEq | KType => true | _ => false end.
 
-(* Parser::parse_variable (after `let`) *)
-Definition parse_variable (ts : list token) : res stmt :=
+Definition contains_aliases (ds : list decorator) : bool :=
+  existsb (fun d => match d with DAliases _ => true | _ => false end) ds.
+Definition contains_aliases_with_prefixes (ds : list decorator) : bool :=
+  existsb (fun d => match d with
+                    | DAliases l => existsb (fun a => match snd a with Some _ => true | None => false end) l
+                    | _ => false end) ds.
+Definition contains_examples (ds : list decorator) : bool :=
+  existsb (fun d => match d with DExample _ _ => true | _ => false end) ds.
+
+(* Parser::parse_variable (after `let`, or after where / and with flush_decorators = false) *)
+Definition parse_variable (flush : bool) (decos : list decorator) (ts : list token) : res defvar :=
   match ts with
-  | TIdent name :: TColon :: _ => Unsupported
-  | TIdent name :: TEqual :: r =>
-      bind (expression (skip_empty_lines r)) (fun e rest => Ok (StLet name e) rest)
-  | TIdent _ :: _ => Err ExpectedEqualOrColonAfterLetIdentifier
+  | TIdent name :: r =>
+      let ann :=
+        match r with
+        | TColon :: r1 => bind (type_annotation r1) (fun a rest => Ok (Some a) rest)
+        | _ => Ok None r
+        end in
+      bind ann (fun a rest =>
+        match rest with
+        | TEqual :: rest1 =>
+            bind (expression (skip_empty_lines rest1)) (fun e rest2 =>
+              if flush && contains_aliases_with_prefixes decos then Err DecoratorsWithPrefixOnLetDefinition
+              else if flush && contains_examples decos then Err ExampleUsedOnUnsuitableKind
+              else Ok (mk_defvar name a (if flush then decos else []) e) rest2)
+        | _ => Err ExpectedEqualOrColonAfterLetIdentifier
+        end)
   | _ => Err ExpectedIdentifierAfterLet
   end.
 
@@ -393,14 +605,345 @@ Definition parse_procedure (k : kw) (ts : list token) : res stmt :=
   | _ => Err ExpectedLeftParenAfterProcedureName
   end.
 
-Definition statement (ts : list token) : res stmt :=
-  match ts with
-  | TKw KLet :: r => parse_variable r
-  | TKw k :: r =>
-      if is_procedure k then parse_procedure k r
-      else bind (expression ts) (fun e rest => Ok (StExpr e) rest)
-  | _ => bind (expression ts) (fun e rest => Ok (StExpr e) rest)
+(* Parser::type_parameters *)
+Definition str_Dim : str := [68; 105; 109].
+Fixpoint type_parameters_loop (n : nat) (acc : list (str * bool)) (ts : list token) : res (list (str * bool)) :=
+  match n with
+  | O => OutOfFuel
+  | S n =>
+      match ts with
+      | TGreaterThan :: r => Ok acc r
+      | TGreaterOrEqual :: _ => Unsupported
+      | TIdent name :: r =>
+          let bound :=
+            match r with
+            | TColon :: TIdent b :: r1 =>
+                if list_eq_dec N.eq_dec b str_Dim then Ok true r1 else Err UnknownBound
+            | TColon :: _ => Err ExpectedBoundInTypeParameterDefinition
+            | _ => Ok false r
+            end in
+          bind bound (fun b rest =>
+            match rest with
+            | TComma :: rest1 => type_parameters_loop n (acc ++ [(name, b)]) rest1
+            | TGreaterThan :: _ | TGreaterOrEqual :: _ => type_parameters_loop n (acc ++ [(name, b)]) rest
+            | _ => Err ExpectedCommaOrRightAngleBracket
+            end)
+      | _ => Err ExpectedTypeParameterName
+      end
   end.
+Definition type_parameters (ts : list token) : res (list (str * bool)) :=
+  match ts with
+  | TLessThan :: r => type_parameters_loop (S (length r)) [] r
+  | _ => Ok [] ts
+  end.
+
+(* the parameter list of a function definition, after `(` and an optional newline *)
+Fixpoint fn_params_loop (n : nat) (acc : list (str * option tann)) (ts : list token)
+  : res (list (str * option tann)) :=
+  match n with
+  | O => OutOfFuel
+  | S n =>
+      match ts with
+      | TRParen :: r => Ok acc r
+      | TIdent name :: r =>
+          let ann :=
+            match r with
+            | TColon :: r1 => bind (type_annotation r1) (fun a rest => Ok (Some a) rest)
+            | _ => Ok None r
+            end in
+          bind ann (fun a rest =>
+            let acc1 := acc ++ [(name, a)] in
+            match skip_empty_lines rest with
+            | TComma :: rest1 =>
+                match skip_empty_lines rest1 with
+                | TRParen :: rest2 => Ok acc1 rest2
+                | rest2 => fn_params_loop n acc1 rest2
+                end
+            | TRParen :: rest1 => Ok acc1 rest1
+            | _ => Err ExpectedCommaEllipsisOrRightParenInFunctionDefinition
+            end)
+      | _ => Err ExpectedParameterNameInFunctionDefinition
+      end
+  end.
+
+(* Parser::look_ahead_beyond_linebreak / match_exact_beyond_linebreaks for a keyword *)
+Fixpoint drop_separators (ts : list token) : list token :=
+  match ts with
+  | TNewline :: r | TSemicolon :: r => drop_separators r
+  | _ => ts
+  end.
+Definition is_kw (k : kw) (t : token) : bool :=
+  match t with TKw k1 => if kw_eq_dec k k1 then true else false | _ => false end.
+Definition match_kw_beyond_linebreaks (k : kw) (ts : list token) : option (list token) :=
+  let ahead := match drop_separators ts with t :: _ => is_kw k t | [] => false end in
+  match (if ahead then skip_empty_lines ts else ts) with
+  | t :: r => if is_kw k t then Some r else None
+  | [] => None
+  end.
+
+Definition local_variable (ts : list token) : res defvar :=
+  match parse_variable false [] (skip_empty_lines ts) with
+  | Ok v rest => Ok v rest
+  | Err _ => Err ExpectedLocalVariableDefinition
+  | OutOfFuel => OutOfFuel
+  | Unsupported => Unsupported
+  end.
+
+Fixpoint and_loop (n : nat) (acc : list defvar) (ts : list token) : res (list defvar) :=
+  match n with
+  | O => OutOfFuel
+  | S n =>
+      match match_kw_beyond_linebreaks KAnd ts with
+      | Some r => bind (local_variable r) (fun v rest => and_loop n (acc ++ [v]) rest)
+      | None => Ok acc ts
+      end
+  end.
+
+(* Parser::parse_function_declaration (after `fn`) *)
+Definition parse_function_declaration (decos : list decorator) (ts : list token) : res stmt :=
+  match ts with
+  | TIdent name :: r =>
+      bind (type_parameters r) (fun tps rest =>
+        match rest with
+        | TLParen :: rest1 =>
+            let rest1a := match rest1 with TNewline :: x => x | _ => rest1 end in
+            bind (fn_params_loop (S (length rest1a)) [] rest1a) (fun params rest2 =>
+              let ret :=
+                match rest2 with
+                | TArrow :: r2 => bind (type_annotation r2) (fun a x => Ok (Some a) x)
+                | _ => Ok None rest2
+                end in
+              bind ret (fun ret rest3 =>
+                let body :=
+                  match rest3 with
+                  | TEqual :: r3 =>
+                      bind (expression (skip_empty_lines r3)) (fun b rest4 =>
+                        match match_kw_beyond_linebreaks KWhere rest4 with
+                        | Some r4 =>
+                            bind (local_variable r4) (fun v rest5 =>
+                              bind (and_loop (S (length rest5)) [v] rest5) (fun vs rest6 => Ok (Some b, vs) rest6))
+                        | None => Ok (Some b, []) rest4
+                        end)
+                  | _ => Ok (None, []) rest3
+                  end in
+                bind body (fun bl rest7 =>
+                  if contains_aliases decos then Err AliasUsedOnFunction
+                  else Ok (StFn name tps params ret (fst bl) (snd bl) decos) rest7)))
+        | _ => Err ExpectedLeftParenInFunctionDefinition
+        end)
+  | _ => Err ExpectedIdentifierAfterFn
+  end.
+
+(* Parser::parse_dimension_declaration (after `dimension`) *)
+Fixpoint dimension_eq_loop (n : nat) (acc : list texp) (ts : list token) : res (list texp) :=
+  match n with
+  | O => OutOfFuel
+  | S n =>
+      match ts with
+      | TEqual :: r =>
+          bind (dimension_expression (skip_empty_lines r)) (fun d rest => dimension_eq_loop n (acc ++ [d]) rest)
+      | _ => Ok acc ts
+      end
+  end.
+Definition parse_dimension_declaration (ts : list token) : res stmt :=
+  match ts with
+  | TIdent name :: r =>
+      if starts_double_underscore name then Err DoubleUnderscoreTypeNamesReserved
+      else bind (dimension_eq_loop (S (length r)) [] r) (fun ds rest => Ok (StDimension name ds) rest)
+  | _ => Err ExpectedIdentifierAfterDimension
+  end.
+
+(* Parser::accepts_prefix, Parser::list_of_aliases (after `(`) *)
+Definition accepts_prefix (ts : list token) : res (option accepts) :=
+  match ts with
+  | TColon :: TKw KLong :: r => Ok (Some AcLong) r
+  | TColon :: TKw KShort :: r => Ok (Some AcShort) r
+  | TColon :: TKw KBoth :: r => Ok (Some AcBoth) r
+  | TColon :: TKw KNone :: r => Ok (Some AcNone) r
+  | TColon :: _ => Err UnknownAliasAnnotation
+  | _ => Ok None ts
+  end.
+Definition alias_entry (ts : list token) : res (str * option accepts) :=
+  match ts with
+  | TIdent name :: r => bind (accepts_prefix r) (fun a rest => Ok (name, a) rest)
+  | _ => Err ExpectedIdentifier
+  end.
+Fixpoint aliases_loop (n : nat) (acc : list (str * option accepts)) (ts : list token)
+  : res (list (str * option accepts)) :=
+  match n with
+  | O => OutOfFuel
+  | S n =>
+      match ts with
+      | TComma :: r => bind (alias_entry r) (fun a rest => aliases_loop n (acc ++ [a]) rest)
+      | TRParen :: r => Ok acc r
+      | _ => Err MissingClosingParen
+      end
+  end.
+Definition list_of_aliases (ts : list token) : res (list (str * option accepts)) :=
+  match ts with
+  | TRParen :: r => Ok [] r
+  | _ => bind (alias_entry ts) (fun a rest => aliases_loop (S (length rest)) [a] rest)
+  end.
+
+Definition w_metric_prefixes : str := [109;101;116;114;105;99;95;112;114;101;102;105;120;101;115].
+Definition w_binary_prefixes : str := [98;105;110;97;114;121;95;112;114;101;102;105;120;101;115].
+Definition w_abbreviation : str := [97;98;98;114;101;118;105;97;116;105;111;110].
+Definition w_aliases : str := [97;108;105;97;115;101;115].
+Definition w_url : str := [117;114;108].
+Definition w_name : str := [110;97;109;101].
+Definition w_description : str := [100;101;115;99;114;105;112;116;105;111;110].
+Definition w_example : str := [101;120;97;109;112;108;101].
+Definition seq (a b : str) : bool := if list_eq_dec N.eq_dec a b then true else false.
+
+(* one decorator, after `@` *)
+Definition parse_decorator (ts : list token) : res decorator :=
+  match ts with
+  | TIdent w :: r =>
+      if seq w w_metric_prefixes then Ok DMetricPrefixes r
+      else if seq w w_binary_prefixes then Ok DBinaryPrefixes r
+      else if seq w w_abbreviation then Ok DAbbreviation r
+      else if seq w w_aliases then
+        match r with
+        | TLParen :: r1 => bind (list_of_aliases r1) (fun l rest => Ok (DAliases l) rest)
+        | _ => Err ExpectedLeftParenAfterDecorator
+        end
+      else if seq w w_url || seq w w_name || seq w w_description then
+        match r with
+        | TLParen :: TString lex :: TRParen :: r1 =>
+            let c := strip_and_escape lex in
+            Ok (if seq w w_url then DUrl c else if seq w w_name then DName c else DDescription c) r1
+        | TLParen :: TString _ :: _ => Err MissingClosingParen
+        | TLParen :: _ => Err ExpectedString
+        | _ => Err ExpectedLeftParenAfterDecorator
+        end
+      else if seq w w_example then
+        match r with
+        | TLParen :: TString code :: TComma :: TString d :: TRParen :: r1 =>
+            Ok (DExample (strip_and_escape code) (Some (strip_and_escape d))) r1
+        | TLParen :: TString _ :: TComma :: TString _ :: _ => Err MissingClosingParen
+        | TLParen :: TString _ :: TComma :: _ => Err ExpectedString
+        | TLParen :: TString code :: TRParen :: r1 => Ok (DExample (strip_and_escape code) None) r1
+        | TLParen :: TString _ :: _ => Err MissingClosingParen
+        | TLParen :: _ => Err ExpectedString
+        | _ => Err ExpectedLeftParenAfterDecorator
+        end
+      else Err UnknownDecorator
+  | _ => Err ExpectedDecoratorName
+  end.
+
+(* Parser::is_end_of_statement *)
+Definition is_end_of_statement (ts : list token) : bool :=
+  match ts with [] | TNewline :: _ | TSemicolon :: _ => true | _ => false end.
+
+(* Parser::parse_unit_declaration (after `unit`) *)
+Definition parse_unit_declaration (decos : list decorator) (ts : list token) : res stmt :=
+  match ts with
+  | TIdent name :: r =>
+      let ann :=
+        match r with
+        | TColon :: r1 => bind (dimension_expression r1) (fun d rest => Ok (Some d) rest)
+        | _ => Ok None r
+        end in
+      bind ann (fun d rest =>
+        if contains_examples decos then Err ExampleUsedOnUnsuitableKind
+        else
+          match rest with
+          | TEqual :: rest1 =>
+              bind (expression (skip_empty_lines rest1)) (fun e rest2 =>
+                Ok (StUnit name (option_map TAExp d) (Some e) decos) rest2)
+          | _ =>
+              match d with
+              | Some _ => Ok (StUnit name (option_map TAExp d) None decos) rest
+              | None =>
+                  if is_end_of_statement rest then Ok (StUnit name None None decos) rest
+                  else Err ExpectedColonOrEqualAfterUnitIdentifier
+              end
+          end)
+  | _ => Err ExpectedIdentifierAfterUnit
+  end.
+
+(* Parser::parse_use (after `use`) *)
+Fixpoint use_loop (n : nat) (acc : list str) (ts : list token) : res (list str) :=
+  match n with
+  | O => OutOfFuel
+  | S n =>
+      match ts with
+      | TDoubleColon :: TIdent m :: r => use_loop n (acc ++ [m]) r
+      | TDoubleColon :: _ => Err ExpectedModuleNameAfterDoubleColon
+      | _ => Ok acc ts
+      end
+  end.
+Definition parse_use (ts : list token) : res stmt :=
+  match ts with
+  | TIdent m :: r => bind (use_loop (S (length r)) [m] r) (fun p rest => Ok (StUse p) rest)
+  | _ => Err ExpectedModulePathAfterUse
+  end.
+
+(* Parser::parse_struct (after `struct`) *)
+Fixpoint struct_fields_loop (n : nat) (acc : list (str * tann)) (ts : list token) : res (list (str * tann)) :=
+  match n with
+  | O => OutOfFuel
+  | S n =>
+      match ts with
+      | TRCurly :: r => Ok acc r
+      | _ =>
+          match skip_empty_lines ts with
+          | TIdent f :: r =>
+              match skip_empty_lines r with
+              | TColon :: r1 =>
+                  bind (type_annotation (skip_empty_lines r1)) (fun a rest =>
+                    match skip_empty_lines rest with
+                    | TComma :: r2 => struct_fields_loop n (acc ++ [(f, a)]) (skip_empty_lines r2)
+                    | TRCurly :: r2 => struct_fields_loop n (acc ++ [(f, a)]) (TRCurly :: r2)
+                    | _ => Err ExpectedCommaOrRightCurlyInStructFieldList
+                    end)
+              | _ => Err ExpectedColonAfterFieldName
+              end
+          | _ => Err ExpectedFieldNameInStruct
+          end
+      end
+  end.
+Definition parse_struct (ts : list token) : res stmt :=
+  match ts with
+  | TIdent name :: r =>
+      bind (type_parameters r) (fun tps rest =>
+        match rest with
+        | TLCurly :: rest1 =>
+            bind (struct_fields_loop (S (length rest1)) [] (skip_empty_lines rest1)) (fun fs rest2 =>
+              Ok (StStruct name tps fs) rest2)
+        | _ => Err ExpectedLeftCurlyAfterStructName
+        end)
+  | _ => Err ExpectedIdentifier
+  end.
+
+(* Parser::statement with the decorator stack `decos`; `n` bounds the chain of decorators *)
+Fixpoint statement_n (n : nat) (decos : list decorator) (ts : list token) : res stmt :=
+  match n with
+  | O => OutOfFuel
+  | S n =>
+      let decorated_ok :=
+        match decos, ts with
+        | [], _ => true
+        | _, (TAt :: _ | TKw KUnit :: _ | TKw KLet :: _ | TKw KFn :: _) => true
+        | _, _ => false
+        end in
+      if negb decorated_ok then Err DecoratorUsedOnUnsuitableKind
+      else
+        match ts with
+        | TKw KLet :: r => bind (parse_variable true decos r) (fun v rest => Ok (StLet v) rest)
+        | TKw KFn :: r => parse_function_declaration decos r
+        | TKw KDimension :: r => parse_dimension_declaration r
+        | TAt :: r => bind (parse_decorator r) (fun d rest => statement_n n (decos ++ [d]) (skip_empty_lines rest))
+        | TKw KUnit :: r => parse_unit_declaration decos r
+        | TKw KUse :: r => parse_use r
+        | TKw KStruct :: r => parse_struct r
+        | TKw k :: r =>
+            if is_procedure k then parse_procedure k r
+            else bind (expression ts) (fun e rest => Ok (StExpr e) rest)
+        | _ => bind (expression ts) (fun e rest => Ok (StExpr e) rest)
+        end
+  end.
+Definition statement (ts : list token) : res stmt := statement_n (S (length ts)) [] ts.
 
 Definition last_is_rparen (consumed : list token) : bool :=
   match rev consumed with TRParen :: _ => true | _ => false end.
@@ -412,24 +955,22 @@ Fixpoint parse_loop (n : nat) (acc : list stmt) (ts : list token) : res (list st
       match ts with
       | [] => Ok acc []
       | _ =>
-          if starts_other_statement ts then Unsupported
-          else
-            match statement ts with
-            | Ok e rest =>
-                match rest with
-                | TNewline :: _ => parse_loop n (acc ++ [e]) (skip_empty_lines rest)
-                | TSemicolon :: r => parse_loop n (acc ++ [e]) (skip_empty_lines r)
-                | [] => Ok (acc ++ [e]) []
-                | TEqual :: _ =>
-                    (* the token before `=` decides between the two messages *)
-                    if last_is_rparen (firstn (length ts - length rest) ts)
-                    then Err TrailingEqualSignFunction else Err TrailingEqualSign
-                | _ => Err TrailingCharacters
-                end
-            | Err e => Err e
-            | OutOfFuel => OutOfFuel
-            | Unsupported => Unsupported
-            end
+          match statement ts with
+          | Ok e rest =>
+              match rest with
+              | TNewline :: _ => parse_loop n (acc ++ [e]) (skip_empty_lines rest)
+              | TSemicolon :: r => parse_loop n (acc ++ [e]) (skip_empty_lines r)
+              | [] => Ok (acc ++ [e]) []
+              | TEqual :: _ =>
+                  (* the token before `=` decides between the two messages *)
+                  if last_is_rparen (firstn (length ts - length rest) ts)
+                  then Err TrailingEqualSignFunction else Err TrailingEqualSign
+              | _ => Err TrailingCharacters
+              end
+          | Err e => Err e
+          | OutOfFuel => OutOfFuel
+          | Unsupported => Unsupported
+          end
       end
   end.
 
